@@ -108,6 +108,11 @@ def wf_text(tname, rd):
         return "empty hit or key"
     if tname == "WKS" and len(rd.bitmap) > 0 and rd.bitmap[-1] == 0:
         return "WKS bitmap with trailing zero octets"
+    if tname in ("SVCB", "HTTPS"):
+        # RFC 9460 §7.1.1: the alpn value holds at least one alpn-id; the presentation format has no spelling for an
+        # empty list (dnspython accepts one from wire and from alpn="" and prints a bare `alpn`, which it rejects)
+        if 1 in rd.params and (rd.params[1] is None or len(getattr(rd.params[1], "ids", (0,))) == 0):
+            return "empty alpn list"
     if tname == "OPT":
         return "no presentation format"
     return None
